@@ -33,7 +33,7 @@ def ref_lo(v):
 
 def label_dependent(op):
     if isinstance(op, dict):
-        if any(k in op for k in ('t', 'lab', 'off', 'pos', 'diff')):
+        if any(k in op for k in ('t', 'lab', 'off', 'pos', 'diff', 'labconst')):
             return True
         return any(label_dependent(v) for v in op.values())
     if isinstance(op, list):
@@ -53,6 +53,8 @@ def ev(op, labels, consts, here):
         return consts[op['c']]
     if 'cr' in op:
         return consts[op['cr']]
+    if 'labconst' in op:
+        return consts[op['labconst']]       # a constant whose definition names labels (see const items with 'labexpr')
     if 'lab' in op:
         return labels[op['lab']]
     if 't' in op:
@@ -94,6 +96,8 @@ def r_op(op):
         return op['c']
     if 'cr' in op:
         return op['cr']
+    if 'labconst' in op:
+        return op['labconst']
     if 'lab' in op:
         return op['lab']
     if 't' in op:
@@ -118,7 +122,7 @@ def r_item(it):
     if k == 'label':
         return it['name'] + ':'
     if k == 'const':
-        return '%s = %s' % (it['name'], it['text'])
+        return '%s = %s' % (it['name'], it['text'] if 'labexpr' not in it else r_op(it['labexpr']))
     if k in ('inst', 'pseudo'):
         ops = [r_op(o) for o in it['ops']]
         return it['m'] + (' ' + ', '.join(ops) if ops else '')
